@@ -271,7 +271,7 @@ impl Engine<'_> {
             return Ok(());
         }
         if gs.zp1.is_twilight() {
-            *gs.zp1_mut().point_mut(point_ix)? = gs.zp0().original(gs.rp0)?;
+            *gs.zp1_mut().original_mut(point_ix)? = gs.zp0().original(gs.rp0)?;
             gs.move_original(gs.zp1, point_ix, distance)?;
             *gs.zp1_mut().point_mut(point_ix)? = gs.zp1().original(point_ix)?;
         }
